@@ -24,6 +24,7 @@ type c1Ent struct {
 
 type c1Mirror struct {
 	ents    []c1Ent
+	noFlags bool // do not judge learned flags (the C05 registration judges counts, order and EXPUNGE placement only)
 	selfTag string
 	// expungeIssued: the last tagged OK said [EXPUNGEISSUED]: sequence numbers refer to messages that are gone
 	expungeIssued bool
@@ -106,7 +107,7 @@ func (m *c1Mirror) probe(st *state.State) {
 		if e.uidKnown {
 			vsymAssert(e.uid == v.UID, "sequence number still maps to the UID the client learned")
 		}
-		if e.flagsKnown {
+		if e.flagsKnown && !m.noFlags {
 			if e.selfComputed && m.selfTag != "" {
 				vsymKnown(m.selfTag, true)
 				vsymAssert(e.flags == v.Flags, "flags the client computed after a .SILENT store equal the flags the server answers")
@@ -157,7 +158,8 @@ func VerifC01Session() {
 	}
 	drain(ch, nil)
 	drain(chAct, nil)
-	mirror := &c1Mirror{}
+	c05only := vsymParam("c05only") == 1
+	mirror := &c1Mirror{noFlags: c05only}
 	{
 		var view []state.VerifViewEntry
 		_ = obs.state.Selected(ctx, func(mb *state.Mailbox) error { view = mb.VerifView(); return nil })
@@ -341,6 +343,9 @@ func VerifC01Session() {
 	vsymAssert(obs.handleCommand(obsCtx, "z", &command.Noop{}, ch) == nil, "NOOP is answered")
 	drain(ch, mirror)
 	mirror.probe(obs.state)
+	if c05only {
+		return // convergence with a fresh session is C02's statement
+	}
 	if f21 {
 		vsymKnown("F21", true) // the convergence obligations below are where F21 shows for good
 	}
